@@ -10,8 +10,8 @@ import vlib
 PID = "C07"
 SPEC, CFG, DIAG = "Tr_Eval.tla", "Tr_Eval.cfg", "Tr_Eval_diag.cfg"
 NETS = ["rand1", "overflow", "material", "extreme", "rand2"]      # "overflow": 16-bit accumulators wrap around in ordinary positions
-SIZES = {"quick": dict(walks=220, searches=24, nets=3, variants=["avx2"], values=200),
-         "thorough": dict(walks=4000, searches=300, nets=5, variants=["ssse3", "avx2", "avx512"], values=3000)}
+SIZES = {"quick": dict(walks=220, searches=24, nets=3, variants=["avx2"], values=200, endgame=(100000, 14)),
+         "thorough": dict(walks=4000, searches=300, nets=5, variants=["ssse3", "avx2", "avx512"], values=3000, endgame=(3000000, 150))}
 
 
 def cpu_has(flag):
@@ -31,17 +31,18 @@ def run(tier, seed):
     for n in nets:
         jobs.append((bdir, n, "pairs", sz["walks"]))
         jobs.append((bdir, n, "search", sz["searches"]))
+        jobs.append((bdir, n, "endgame", sz["endgame"][0]))
 
     def gen(j):
         b, n, mode, cnt = j
         out = os.path.join(wd, f"{mode}_{n}.ndjson")
-        p = vlib.sh([os.path.join(b, f"h_eval-{n}"), mode, str(seed), str(cnt), out], timeout=3000)
+        p = vlib.sh([os.path.join(b, f"h_eval-{n}"), mode, str(seed), str(cnt), out] + ([str(sz["endgame"][1])] if mode == "endgame" else []), timeout=3000)
         if p.returncode != 0:
             return None, f"h_eval-{n} {mode} exited {p.returncode}: {p.stderr[-400:]}"
         return out, json.loads(p.stdout.strip().split("\n")[-1])
     outs = vlib.pmap(gen, jobs, workers=8)
     files = []
-    pairs = evals = hooked = 0
+    pairs = evals = hooked = screened = cands = 0
     for (b, n, mode, cnt), (out, info) in zip(jobs, outs):
         if out is None:
             rep.violation(f"harness-crash:{n}:{mode}", info)
@@ -50,6 +51,8 @@ def run(tier, seed):
         pairs += info["pairs"]
         evals += info["evals"]
         hooked += info["hooked_evals"]
+        screened += info.get("screened", 0)
+        cands += info.get("candidates", 0)
     # SIMD variants against the generic build
     need = {"ssse3": "ssse3", "avx2": "avx2", "avx512": "avx512bw"}
     variants = [v for v in sz["variants"] if cpu_has(need[v])]
@@ -82,7 +85,8 @@ def run(tier, seed):
                 rep.violation(f"variant-diverged:{v}:{n}", f"variant {v} produced {len(vals)} evaluations, generic {len(base[n])} (net {n})")
             files.append(f)
     vlib.linear_check(rep, SPEC, CFG, DIAG, files, wd)
-    rep.cov.update({"pairs_checked": pairs, "evaluations_recorded": evals, "evaluations_seen_by_search_hook": hooked, "nets": nets})
+    rep.cov.update({"pairs_checked": pairs, "evaluations_recorded": evals, "evaluations_seen_by_search_hook": hooked, "nets": nets,
+                    "endgame_placements_screened_for_rule_asymmetry": screened, "endgame_screening_candidates_recorded": cands})
     rep.cov["evaluations"] = pairs
     rep.cov["distinct_nontrivial"] = pairs
     rep.cov["rule"] = ("pairs of evaluations that the specification relates (same position+contempt / colour flip / mirror); each pair comes from a "
